@@ -17,6 +17,13 @@ NoBlocks == {<<>>}
 NoEnv == {}
 HSeq == <<"m50", "other", "m10", "m300", "m303">>
 SSeq == <<"idle", "fresh", "signed", "elected", "relayed">>
+MainStages == {SSeq[i] : i \in DOMAIN SSeq}
+\* histories without a hostile entry: what the chain does with what honest but lazy / absent pigeons leave behind
+\*   a delivery report that nobody attests, contentious evidence, evidence only from a validator outside the snapshot:
+\*   the run goes on (nobody attests) past the pruning height of the message (older than 300 blocks at a height = 0 mod 50)
+LapseStages == {"relayed", "reportedpad", "split", "newval"}
+\*   a validator with more than a quarter of the stake / the last active validator whose pigeon never runs: 120 blocks of jail sweeps
+SilentWorlds == {"big", "solo"}
 CSeq == <<"negative", "zero", "one", "huge63", "huge64", "huge255", "empty", "overlong", "malformed">>
 CIdx(c) == CHOOSE j \in DOMAIN CSeq : CSeq[j] = c
 Focus == {"UpsertRelayerFee", "AddMessageEstimates", "AddMessageEstimates/all", "AddEvidence", "AddEvidence/all", "AddEvidenceTx/all", "AddEvidenceBalances/all",
@@ -37,11 +44,20 @@ Selected(i, c, s, hc) ==
 GInit == Init /\ hist = <<>> /\ phase = "start"
 
 GPrepare == /\ phase = "start"
-            /\ \E s \in Stages, hc \in HClasses :
-                 /\ txlog' = PrepLog(s, hc) /\ height' = HeightOf(hc) - 1 /\ queued' = StageOfLog(PrepLog(s, hc))
-                 /\ hist' = <<[act |-> "Prepare", args |-> [stage |-> s, hclass |-> hc]]>>
-                 /\ last' = Rec("Block", <<>>)
-            /\ phase' = "prepared" /\ UNCHANGED <<gate, halted, nodeVars>>
+            /\ \/ \E s \in MainStages, hc \in HClasses :
+                    /\ txlog' = PrepLog(s, hc) /\ height' = HeightOf(hc) - 1 /\ queued' = StageOfLog(PrepLog(s, hc))
+                    /\ hist' = <<[act |-> "Prepare", args |-> [stage |-> s, hclass |-> hc, world |-> "std"]]>>
+                    /\ phase' = "prepared"
+               \/ \E s \in LapseStages :
+                    /\ txlog' = PrepLog(s, "other") /\ height' = HeightOf("other") - 1 /\ queued' = StageOfLog(PrepLog(s, "other"))
+                    /\ hist' = <<[act |-> "Prepare", args |-> [stage |-> s, hclass |-> "other", world |-> "std"]]>>
+                    /\ phase' = "lapse"
+               \/ \E w \in SilentWorlds :
+                    /\ txlog' = PrepLog("idle", "other") /\ height' = HeightOf("other") - 1 /\ queued' = "idle"
+                    /\ hist' = <<[act |-> "Prepare", args |-> [stage |-> "idle", hclass |-> "other", world |-> w]]>>
+                    /\ phase' = "silent"
+            /\ last' = Rec("Block", <<>>)
+            /\ UNCHANGED <<gate, halted, nodeVars>>
 
 CurStage == hist[1].args.stage
 CurHC == hist[1].args.hclass
@@ -56,6 +72,11 @@ GGate == /\ phase = "prepared" /\ CurHC = "other" /\ Gate
          /\ hist' = Append(hist, [act |-> "Gate", args |-> [n |-> 0]]) /\ phase' = "gate"
 GRun == /\ phase \in {"hostile", "gate"}
         /\ IF gate THEN Halt ELSE Block(DutyBlock)
-        /\ hist' = Append(hist, [act |-> "Run", args |-> [n |-> 0]]) /\ phase' = "done"
-GNextC == (IF phase = "done" THEN PrintT(<<"HIST", ToJson(hist)>>) ELSE TRUE) /\ (GPrepare \/ GHostile \/ GGate \/ GRun)
+        /\ hist' = Append(hist, [act |-> "Run", args |-> [mode |-> "duty", span |-> "next"]]) /\ phase' = "done"
+\* nobody attests: the blocks carry what the pigeons still do (sign, estimate, batch work)
+GLapse == /\ phase = "lapse" /\ Block(TplSeq(<<"sign", "estimate", "batchest", "confirm">>))
+          /\ hist' = Append(hist, [act |-> "Run", args |-> [mode |-> "noattest", span |-> "prune"]]) /\ phase' = "done"
+GSilent == /\ phase = "silent" /\ Block(<<>>)
+           /\ hist' = Append(hist, [act |-> "Run", args |-> [mode |-> "duty", span |-> "120"]]) /\ phase' = "done"
+GNextC == (IF phase = "done" THEN PrintT(<<"HIST", ToJson(hist)>>) ELSE TRUE) /\ (GPrepare \/ GHostile \/ GGate \/ GRun \/ GLapse \/ GSilent)
 =============================================================================
